@@ -189,6 +189,27 @@ func runCCRound(c *engine.Ctx, rd ccRound) {
 			n := world.MustNode(false, "")
 			req, _ := n.FetchRequest()
 			cl.node, cl.fetchReq = n, req
+		case "fetch-authorized-twin":
+			// a second connection of an authorized node that is fetching in this same round (it polls on two
+			// connections, or retries while its first attempt is still being served): handled alone it is answered
+			// with the node's credentials like the first
+			var first *ccClient
+			for _, o := range clients {
+				if o.kind == "fetch-authorized" {
+					first = o
+				}
+			}
+			if first == nil {
+				n := world.MustNode(false, "")
+				req, _ := n.FetchRequest()
+				if _, err := registration.AuthorizeNode(s.Ctx, s.Store, req, s.Opts()...); err != nil {
+					r.Broken("authorize: " + err.Error())
+					return
+				}
+				cl.node, cl.fetchReq = n, req
+			} else {
+				cl.node, cl.fetchReq = first.node, first.fetchReq
+			}
 		case "malformed":
 			// a peer whose ALPN entries break off in the middle: a well-formed chunk followed by one
 			// with an unusable header, under either prefix; it is rejected, and that must be all
@@ -235,7 +256,7 @@ func runCCRound(c *engine.Ctx, rd ccRound) {
 
 	// rendezvous inside the configurable functions
 	k := len(clients)
-	bFetch := newRendezvous(countKinds(rd.Clients, "fetch-authorized", "fetch-unauthorized", "token", "wrapper"))
+	bFetch := newRendezvous(countKinds(rd.Clients, "fetch-authorized", "fetch-authorized-twin", "fetch-unauthorized", "token", "wrapper"))
 	bGen := newRendezvous(k - countKindsExact(rd.Clients, "malformed"))
 	var inFetch, inGen atomic.Int64
 	fetchFn := func(ctx context.Context, st nodeenrollment.Storage, req *types.FetchNodeCredentialsRequest, opt ...nodeenrollment.Option) (*types.FetchNodeCredentialsResponse, error) {
@@ -369,6 +390,17 @@ func runCCRound(c *engine.Ctx, rd ccRound) {
 				fail("record", "a node record exists for a never-authorized key")
 			}
 			r.Count("unauthorized_fetch_checked", 1)
+		case "fetch-authorized-twin":
+			if rec.Returned {
+				fail("outcome", "fetch handshake returned a connection")
+			}
+			respBytes, derr := base64.RawStdEncoding.DecodeString(cl.cn)
+			resp := new(types.FetchNodeCredentialsResponse)
+			if cl.herr != nil || derr != nil || proto.Unmarshal(respBytes, resp) != nil || len(resp.EncryptedNodeCredentials) == 0 {
+				fail("outcome", fmt.Sprintf("a second connection of an authorized node was not answered with its credentials while its first one was being handled (handshake error %v, answer %q)", cl.herr, head([]string{cl.cn}, 1)[0]))
+				break
+			}
+			r.Count("enrollments_checked:twin", 1)
 		case "fetch-authorized", "token", "wrapper":
 			if rec.Returned {
 				fail("outcome", "fetch handshake returned a connection")
@@ -498,6 +530,9 @@ func runConcurrent(c *engine.Ctx) engine.Result {
 		case 4:
 			rd.Clients = []string{"token", "wrapper", "auth", "fetch-authorized", "token", "wrapper"}
 			rd.Acceptors = 6
+		case 2:
+			rd.Clients = []string{"fetch-authorized", "fetch-authorized-twin", "auth", "fetch-authorized-twin", "token"}
+			rd.Acceptors = 5
 		case 5:
 			rd.Clients = []string{"malformed", "auth", "malformed", "auth", "malformed", "token", "malformed", "fetch-authorized"}
 			rd.Acceptors = 2 + rng.Intn(3) // few acceptors: rejected and honest handshakes follow each other on the same goroutines
@@ -514,6 +549,7 @@ func runConcurrent(c *engine.Ctx) engine.Result {
 	r.Require("enrollments_checked:wrapper", 5)
 	r.Require("forged_rejected", 5)
 	r.Require("malformed_rejected", 20)
+	r.Require("enrollments_checked:twin", 20)
 	r.Require("rounds_with_state_in_listener_options", int64(rounds/5))
 	return res
 }
